@@ -406,6 +406,16 @@ def check_toc(mc, md):
         return ("in-memory TOC index differs from disk", mem, disk)
     if sorted(to_ep_name(r.name, r.version) for r in mc.metador.schemas.keys()) != used:
         return ("in-memory schema set differs", used)
+    # the incrementally maintained schema index (parents / children / used packages) == one rebuilt from disk
+    fresh = MetadorContainerTOC(mc)
+    for attr in ("_parents", "_children", "_used"):
+        a, b = getattr(mc.metador._schemas, attr, None), getattr(fresh._schemas, attr, None)
+        if a is None and b is None:
+            a, b = getattr(mc.metador._packages, attr, None), getattr(fresh._packages, attr, None)
+        if attr != "_parents":  # (an empty set and a missing key mean the same and are not observable)
+            a, b = {k: v for k, v in a.items() if v}, {k: v for k, v in b.items() if v}
+        if a != b:
+            return ("in-memory schema index differs from the one rebuilt from disk", attr, repr(a)[:200], repr(b)[:200])
     # C20: the container describes the schemas it uses
     for ep in used:
         name, ver = from_ep_name(ep)
